@@ -236,7 +236,7 @@ class CircularConvolve(LinearOperator):
             h=self.h_dft * scalar,
             input_shape=self.input_shape,
             ndims=self.ndims,
-            input_dtype=self.input_dtype,
+            input_dtype=result_type(self.input_dtype, scalar),
             h_is_dft=True,
         )
 
@@ -246,7 +246,7 @@ class CircularConvolve(LinearOperator):
             h=self.h_dft / scalar,
             input_shape=self.input_shape,
             ndims=self.ndims,
-            input_dtype=self.input_dtype,
+            input_dtype=result_type(self.input_dtype, scalar),
             h_is_dft=True,
         )
 
